@@ -56,6 +56,17 @@ def history(rng):
                 name, k, r.choice(["throw \"top\";", "nil + 1;", "undefined_thing;", "[1][9];", "throw [1, 2];", "throw RuntimeError;"]), k)))
             defined.append(name)
             failing = True
+        elif c < 61:
+            # a failing statement that must leave no binding behind: assignment to a name nobody declared (at top level,
+            # in a function, in a fiber, through a compound operator), a declaration whose initialiser fails
+            name = "ghost%d" % k
+            form = r.choice(["%(n)s = 10;", "fn setg%(k)d() { %(n)s = 10; }\nsetg%(k)d();", "var fbg%(k)d = Fiber.new(|| { %(n)s = 10; });\nfbg%(k)d.call();",
+                             "%(n)s += 1;", "var %(n)s = nil + 1;", "var %(n)s = undefined_thing;", "var %(n)s = [1][7];",
+                             "fn %(n)s() { return 1; }\n%(n)s = undefined_thing;", "%(n)s = %(n)s;"]) % {"n": name, "k": k}
+            steps.append(("snip", "print(\"before\");\n%s\nprint(\"not reached\");\n" % form))
+            steps.append(("snip", "try { print(%s); } catch e { print(type(e)); print(e.context); }\n" % name))
+            defined.append(name)
+            failing = True
         elif c < 64:
             steps.append(("snip", "fn a%d() { return b%d() + 1; }\nfn b%d() { %s }\nprint(a%d());\n" % (
                 k, k, k, r.choice(["throw \"deep\";", "return nil + 1;", "return [].pop();"]), k)))
